@@ -36,7 +36,7 @@ def render(model, delim=None):
         for e in entries:
             d = delim or [' : ', ' = ', ':', '=', ' :  '][e.get('sp', 0) % 5]
             val = e['val']
-            out.append('%s%s%s' % (key_text(e['key'], e.get('sp', 0)), d, val.replace('\n', '\n    ')))
+            out.append('%s%s%s' % (e.get('rawkey') or key_text(e['key'], e.get('sp', 0)), d, val.replace('\n', '\n    ')))
         out.append('')
     return '\n'.join(out) + '\n'
 
@@ -248,7 +248,7 @@ def check_store_text(models, tag, tagged=None):
     Returns (disagreements, stats)."""
     import ini_common as ic
     dis = []
-    ms = [m for m in models if label_texts_ok(m) and '$' not in render(m)]
+    ms = [m for m in models if label_texts_ok(m) and '$' not in render(m) and not any(e.get('rawkey') for _, es in m['sections'] for e in es)]
     res = eval_results(tag, PRE_TEXT, [store_text_expr(m) for m in ms], chunk=20)
     n_ok = 0
     for m, zs in zip(ms, res):
